@@ -617,8 +617,10 @@ func RunC04(r *core.Run) {
 			// library itself defines are in scope (ErrorHdr(200).Error() panics, but no exported
 			// function returns such a value - that is checked by every monitor through errName)
 			if v <= int(sipsp.ErrHdrTooManyVals) {
-				_ = sipsp.ErrorHdr(v).Error()
-				_ = sipsp.ErrorHdr(v).ErrorConv()
+				e := sipsp.ErrorHdr(v)
+				if ec := e.ErrorConv(); (v == 0 && ec != nil) || (v != 0 && (ec == nil || ec.Error() != e.Error())) {
+					return fmt.Sprintf("ErrorHdr(%d) (%q).ErrorConv() = %v", v, e.Error(), ec)
+				}
 			}
 			_ = sipsp.ErrorHdr(v).ErrorConv()
 			if v <= int(sipsp.ErrURIBug) {
